@@ -133,7 +133,7 @@ class System(object):
         # which attributes exist is the hidden cache state (the three views
         # today; any further cache a refactoring adds is picked up as well)
         flags = (type(o).__name__, tuple(sorted(o.__dict__)),
-                 bool(o._projected),
+                 bool(getattr(o, "_projected", False)),
                  type(o.__dict__.get("_poses_se3")).__name__)
         parts = [repr(flags).encode()]
         parts.append(_norm(np.array([geom.pose(R, p)
@@ -502,6 +502,30 @@ class System(object):
         return st, msgs, label
 
 
+class SystemDebugLog(System):
+    """the same system while evo's logger is enabled for DEBUG - the state
+    every CLI run (and every script that called log.configure_logging(), even
+    with silent=True) is in; debug-only code paths read properties"""
+    LOGLEVEL = "DEBUG"
+    n_inits = 4
+
+    def initial(self, i):
+        _loglevel(self.LOGLEVEL)
+        return System.initial(self, i)
+
+    def step(self, st, op, check=True):
+        _loglevel(self.LOGLEVEL)
+        try:
+            return System.step(self, st, op, check)
+        finally:
+            _loglevel("CRITICAL")
+
+
+def _loglevel(name):
+    import logging
+    logging.getLogger("evo").setLevel(getattr(logging, name))
+
+
 class SystemLarge(System):
     """the same alphabet on 16-pose objects (size-dependent index arithmetic,
     e.g. in down-sampling, is invisible on 4 poses)"""
@@ -536,8 +560,12 @@ def run(ctx):
     depth = ctx.pick(4, 5)
     acc = hist.bfs(ctx, FACTORY, depth)
     big = hist.bfs(ctx, "mc.checks.c08.SystemLarge", ctx.pick(2, 3))
-    st = acc.counters["states"] + big.counters["states"]
+    dbg = hist.bfs(ctx, "mc.checks.c08.SystemDebugLog", ctx.pick(3, 4))
+    st = acc.counters["states"] + big.counters["states"] + \
+        dbg.counters["states"]
     acc.merge(big)
+    acc.merge(dbg)
+    acc.bounds["max_depth_completed_debug_logging"] = ctx.pick(3, 4)
     acc.counters["states"] = st
     acc.bounds["max_depth_completed"] = depth
     acc.bounds["max_depth_completed_16_poses"] = ctx.pick(2, 3)
@@ -548,7 +576,8 @@ def run(ctx):
         "one (n,4,4) array, "
         "positions+quaternions} with 4 poses, a single-pose trajectory and a "
         "two-pose path, and to depth 2 (3) from two "
-        "16-pose trajectories; states de-duplicated by (class, which "
+        "16-pose trajectories, and to depth 3 (4) with evo's logger enabled "
+        "for DEBUG; states de-duplicated by (class, which "
         "cached views exist, projected flag, pose content rounded to 1e-9, "
         "timestamps); after every transition all views, check() and derived "
         "quantities are compared with the lock-step model. non-trivial = "
